@@ -132,7 +132,8 @@ Qed.
 Lemma h_remove_at_frame : handlers_frame h_remove_at.
 Proof.
   constructor; simpl; try (intros; discriminate).
-  intros b t a xs' H. inversion H; subst. apply drop_item.
+  - intros b name t a fs' H. inversion H; subst. apply drop_field.
+  - intros b t a xs' H. inversion H; subst. apply drop_item.
 Qed.
 
 Lemma h_inc_frame : forall v d, handlers_frame (h_inc v d).
